@@ -77,11 +77,11 @@ func OpenFile(name string, flag int, perm os.FileMode) (*File, error) {
 }
 
 func Stat(name string) (os.FileInfo, error) { point("Stat"); return os.Stat(name) }
-func IsNotExist(err error) bool              { return os.IsNotExist(err) }
-func IsExist(err error) bool                 { return os.IsExist(err) }
-func Remove(name string) error               { point("Remove"); return os.Remove(name) }
-func Rename(a, b string) error               { point("Rename"); return os.Rename(a, b) }
-func ReadFile(name string) ([]byte, error)   { point("ReadFile"); return os.ReadFile(name) }
+func IsNotExist(err error) bool             { return os.IsNotExist(err) }
+func IsExist(err error) bool                { return os.IsExist(err) }
+func Remove(name string) error              { point("Remove"); return os.Remove(name) }
+func Rename(a, b string) error              { point("Rename"); return os.Rename(a, b) }
+func ReadFile(name string) ([]byte, error)  { point("ReadFile"); return os.ReadFile(name) }
 func WriteFile(name string, data []byte, perm os.FileMode) error {
 	point("WriteFile")
 	return os.WriteFile(name, data, perm)
